@@ -35,7 +35,7 @@ func successReturn(fn *ssa.Function) (*ssa.Return, error) {
 	ei := errorResultIndex(fn.Signature)
 	var cands []*ssa.Return
 	for _, r := range returnsOf(fn) {
-		if ei >= 0 && !isNilConst(r.Results[ei]) {
+		if ei >= 0 && !isNilConst(resultsOf(r)[ei]) {
 			continue
 		}
 		cands = append(cands, r)
@@ -115,7 +115,7 @@ func (p *Program) Extract(s Site) (val string, pos string, fn *ssa.Function, err
 		if k >= len(ret.Results) {
 			return "", "", fn, fmt.Errorf("no result %d", k)
 		}
-		return short(tb.Term(ret.Results[k]).String()), p.pos(instrPos(ret)), fn, nil
+		return short(tb.Term(resultsOf(ret)[k]).String()), p.pos(instrPos(ret)), fn, nil
 	case "arg":
 		i := strings.LastIndex(parts[1], ":")
 		if i < 0 {
